@@ -212,15 +212,23 @@ func (n *mNode) coq() string {
 	return lib.App("Node", coqInputs(n.Srcs), coqMGroups(n.NamedSrcs), coqInputs(n.Tools), coqMGroups(n.NamedTools), "[]",
 		lib.List(deps), lib.Bool(n.NeedsTransitive), lib.Bool(n.OutputIsComplete), coqLbls(n.Runtime))
 }
-func (g *mGraph) coq() string {
+func (g *mGraph) coqNodes() string {
 	nodes := make([]string, len(g.Nodes))
 	for k := range g.Nodes {
 		nodes[k] = lib.Pair(coqLbl(g.Nodes[k].Label), g.Nodes[k].coq())
 	}
+	return lib.List(nodes)
+}
+
+func (g *mGraph) coqProvide() string {
 	prov := make([]string, len(g.Provide))
 	for k, p := range g.Provide {
 		prov[k] = lib.Pair(lib.Pair(coqLbl(p.Dependency), coqLbl(p.Dep)), coqLbls(p.Labels))
 	}
+	return lib.List(prov)
+}
+
+func (g *mGraph) coqPaths() string {
 	paths := make([]string, len(g.Paths))
 	for k, p := range g.Paths {
 		prs := make([]string, len(p.Pairs))
@@ -229,7 +237,16 @@ func (g *mGraph) coq() string {
 		}
 		paths[k] = lib.Pair(p.In.coq(), lib.List(prs))
 	}
-	return lib.App("Graph", lib.List(nodes), lib.List(prov), lib.List(paths))
+	return lib.List(paths)
+}
+
+// caseTerm: Src (CSrc g g' top fuel hashes stream stream')
+func caseTerm(g0, g1 *mGraph, top rh.Label, fuel int, hashes []rh.KV, st0, st1 string) string {
+	return lib.App("Src", lib.App("CSrc", g0.coq(), g1.coq(), coqLbl(top), lib.Nat(fuel), coqHashes(hashes), hexStr(st0), hexStr(st1)))
+}
+
+func (g *mGraph) coq() string {
+	return lib.App("Graph", g.coqNodes(), g.coqProvide(), g.coqPaths())
 }
 
 // ------------------------------------------------------------------------------------------- construction
@@ -801,7 +818,7 @@ func runSourceHash(c *lib.Ctx) {
 		os.Chdir(cwd)
 		os.RemoveAll(w.dir)
 	}()
-	n := c.Scale(60, 1500)
+	n := c.Scale(45, 1500)
 	perms := c.Scale(3, 5)
 	for i := 0; i < n; i++ {
 		r := c.Rng.Fork()
@@ -837,8 +854,7 @@ func runSourceHash(c *lib.Ctx) {
 					js["tie"] = "sha1(interpreted stream) != build.sourceHash"
 					st0 = "TIE BROKEN: sha1(interpreted stream) != build.sourceHash " + hex.EncodeToString(b0.hash)
 				}
-				c.Case(lib.App("Src", lib.App("CSrc", b0.graph.coq(), b1.graph.coq(), coqLbl(gs.Top), lib.Nat(len(gs.Nodes)+1),
-					coqHashes(b0.hashes), hexStr(st0), hexStr(st1))), js, key, nt)
+				c.Case(caseTerm(b0.graph, b1.graph, gs.Top, len(gs.Nodes)+1, b0.hashes, st0, st1), js, key, nt)
 			} else {
 				c.Eval(js, key, nt)
 			}
